@@ -70,6 +70,21 @@ def run(case):
             if cu.find_closest_index(int(case[1]), recs, key=lambda r: r[1]) != i:
                 out.append(["key-variant-differs"])
             return out
+        if k == "round":
+            # (round (q n d) digits) with n/d an exactly representable float, or (round (i n) digits) for an int / Fraction
+            n, d, digits = int(case[1][1]), int(case[1][2]), int(case[2])
+            kind = case[3] if len(case) > 3 else "float"
+            x = n / d if kind == "float" else (n if kind == "int" else Fraction(n, d))
+            if kind == "float" and Fraction(x) != Fraction(n, d):
+                raise AssertionError("not an exact float")
+            r = cu.round_floats(x, digits)
+            if kind != "float":
+                return ["ok", "unchanged" if (r is x or (r == x and type(r) is type(x))) else "changed"]
+            fr = Fraction(r) * 10 ** digits
+            k_ = round(fr)
+            # the returned float is the double nearest to k / 10^digits
+            exact = float(Fraction(k_, 10 ** digits)) == r
+            return ["ok", k_, "nearest-double" if exact else "not-the-nearest-double"]
         if k == "uniq":
             return ["ok"] + list(cu.uniqify_sequence([int(x) for x in case[1:]]))
         if k == "nget":
